@@ -343,8 +343,10 @@ impl<'a, 'b> BindingsCollect<'a, 'b> {
                                     _ => None,
                                 };
                                 if let Some((extend, arg)) = res {
-                                    if let ResolvedIdent::Slot(_, id) =
-                                        id.node.payload.as_ref().unwrap()
+                                    // An identifier which was not resolved (undefined variable)
+                                    // has no payload: there is no binding to record for it.
+                                    if let Some(ResolvedIdent::Slot(_, id)) =
+                                        id.node.payload.as_ref()
                                     {
                                         let bind = if extend {
                                             BindExpr::ListExtend(*id, args.args[arg].expr())
